@@ -258,6 +258,12 @@ func (w *world) poolHook(op string, p *router.Packet) {
 		}
 		b.stage, b.who = stPool, ""
 		w.inPool++
+		// poison on return: the previous owner has no business with the packet any more. Get()
+		// re-initialises every field, so this changes nothing for a correct router; a stage that
+		// still reads the packet after returning it (there is no yield point between the return and
+		// such a read, so the scheduler cannot put the next owner in between) now meets nil fields.
+		p.RawPacket, p.Link = nil, nil
+		w.r.Probe("buffer-poisoned-on-return")
 	case "get":
 		if b.stage != stPool {
 			w.fail("c14-pool-handout", "handout-in-use:"+classOf(name),
